@@ -77,6 +77,8 @@ def impl(case):
         final = [[SD.seg_t(s) for s in h] for h in r["final"]]
         tapes = {"idx": idx, "final": final, "pop_dict": {int(k): v for k, v in r["pop_dict"].items()}}
         bp_path = str(out) + ".bp"
+        gens = c01.gens_of(r)
+        _runs[C.jdump(case)] = {"gens": gens, "idx": idx, "pop_dict": tapes["pop_dict"], "maps": case["maps"], "region": case["region"]}
     text = open(bp_path).read()
     lines = [l.split("\t") for l in text.splitlines()]
     # haptools' own readers
@@ -95,12 +97,49 @@ def impl(case):
     return {"lines": lines, "readers": readers, "tapes": tapes}
 
 
+_runs = {}
+
+
 def model_req(case):
-    return {"op": "batch", "reqs": []}
+    """the whole run inside the model (Plan.simulateAll on the recorded tapes, starting from nothing)"""
+    r = _runs.get(C.jdump(case))
+    if not r or not c01._chainable(r["gens"]):
+        return {"op": "batch", "reqs": []}
+    g0 = r["gens"][0]
+    return {"op": "batch", "reqs": [dict(op="simAll", chroms=g0["chroms"], cmEnd=g0["cmEnd"], gens=[g["tapes"] for g in r["gens"]])]}
 
 
-def model_obs_factory():
-    pass
+def model_obs(case, resp):
+    """the .bp lines the model's final generation gives for the haplotype indices write_breakpoints drew"""
+    r = _runs.get(C.jdump(case))
+    if not r or not resp.get("resps") or not isinstance(resp["resps"][0].get("gens"), list):
+        return {"lines": None}
+    final = resp["resps"][0]["gens"][-1]
+    return {"lines": expected_lines({"idx": r["idx"], "final": final, "pop_dict": r["pop_dict"]})}
+
+
+def tape_on_map(case):
+    """hypotheses of C02.cm_never_decreases on the recorded tapes: every event closes its tract at a marker of the map
+    (bp, cM), every chromosome is closed at the cM of its last marker; returns a description of the first offence"""
+    r = _runs.get(C.jdump(case))
+    if not r:
+        return None
+    for gi, g in enumerate(r["gens"]):
+        for ci, c in enumerate(g["chroms"]):
+            name = "X" if c == 23 else str(c)
+            mk = r["maps"][name]
+            if r["region"]:
+                # the map restricted to the region (first marker >= start … first marker >= end)
+                pass
+            if g["cmEnd"][ci] not in [m for _, m in mk]:
+                return f"generation {gi}: chromosome {c} is closed at cM {g['cmEnd'][ci]}, not a marker of its map"
+        for t in g["tapes"] or []:
+            for ci, bp, cm in t["events"]:
+                c = g["chroms"][ci]
+                mk = r["maps"]["X" if c == 23 else str(c)]
+                if (bp, cm) not in [(b, m) for b, m in mk]:
+                    return f"generation {gi}: a recombination closes a tract at ({bp} bp, {cm} cM), not a marker of chromosome {c}'s map"
+    return None
 
 
 def expected_lines(tapes):
@@ -113,7 +152,9 @@ def expected_lines(tapes):
 
 
 def equal(a, b):
-    return True
+    if b.get("lines") is None:
+        return a.get("tapes") is None or "error" in a  # CLI runs are not instrumented: nothing to compare
+    return a.get("lines") == b["lines"]
 
 
 def oracle(case, obs):
@@ -175,6 +216,9 @@ def oracle(case, obs):
             return f"write_breakpoints drew haplotype indices {t['idx']}"
         if expected_lines(t) != lines:
             return "the .bp text is not the rendering of the drawn simulated haplotypes"
+        off = tape_on_map(case)
+        if off:
+            return off
     return None
 
 
@@ -185,19 +229,22 @@ def describe(case, obs):
 CHECK = Check(
     id="C02",
     title="Breakpoint output tiles every simulated chromosome and respects the model",
-    theorems=["C02.simulate_tiles", "C02.haplotype_wellformed", "C02.labels_from_parents", "C02.write_framing", "C02.bp_reader_accepts"],
+    theorems=["C02.simulate_tiles", "C02.haplotype_wellformed", "C02.labels_from_parents", "C02.every_haplotype_tiles", "C02.cm_never_decreases", "C02.labels_are_sources", "C02.write_framing", "C02.bp_reader_accepts"],
     sections=[
         Section(
             name="bp_output",
-            theorems=["C02.simulate_tiles", "C02.haplotype_wellformed", "C02.labels_from_parents", "C02.write_framing", "C02.bp_reader_accepts"],
+            theorems=["C02.simulate_tiles", "C02.haplotype_wellformed", "C02.labels_from_parents", "C02.every_haplotype_tiles", "C02.cm_never_decreases", "C02.labels_are_sources", "C02.write_framing", "C02.bp_reader_accepts"],
             gen=gen,
             impl=impl,
+            model_req=model_req,
+            model_obs=model_obs,
+            equal=equal,
             oracle=oracle,
             describe=describe,
             setup=setup,
             teardown=teardown,
             nontrivial=lambda c, o: C.jdump(c) if isinstance(o, dict) and "lines" in o and len(o["lines"]) > 2 * c["model"][0] * (1 + (1 if c["region"] else len(c["chroms"]))) else None,
-            rule="the model/map/region generator of C01 (1-4 generation lines incl. zero fractions and pulses, 2-4 source populations, 1-4 chromosomes incl. X, 2-10 markers, optional region, 1-5 samples), through simulate_gt + write_breakpoints (every 3rd case through the `simgenotype --only_breakpoint` CLI, with --popsize values below, at and above twice the sample count); the .bp text is checked clause by clause (order of chromosomes, strictly increasing bp ends, sentinel, non-decreasing cM, labels subset of contributing populations, Sample_i_1/_2 framing), read with Breakpoints.load and karyogram.GetHaplotypeBlocks, and compared with the rendering of the recorded simulated haplotypes drawn by the recorded index tape; the haplotypes themselves are tied to the Lean plan/exec model by C01's simulate_gt section; non-trivial = some haplotype has a recombination breakpoint",
+            rule="the model/map/region generator of C01 (1-4 generation lines incl. zero fractions and pulses, 2-4 source populations, 1-4 chromosomes incl. X, 2-10 markers, optional region, 1-5 samples), through simulate_gt + write_breakpoints (every 3rd case through the `simgenotype --only_breakpoint` CLI, with --popsize values below, at and above twice the sample count); the .bp text is checked clause by clause (order of chromosomes, strictly increasing bp ends, sentinel, non-decreasing cM, labels subset of contributing populations, Sample_i_1/_2 framing), read with Breakpoints.load and karyogram.GetHaplotypeBlocks, and compared with the rendering of the recorded simulated haplotypes drawn by the recorded index tape; for instrumented runs the decoded tapes of all generations are run through Plan.simulateAll (the function C02.every_haplotype_tiles / cm_never_decreases / labels_are_sources are about) and the file must be the rendering of the model's final generation at the drawn indices; the map hypotheses of cm_never_decreases (events close at map markers) are checked on every recorded tape; non-trivial = some haplotype has a recombination breakpoint",
         ),
     ],
     trusted=["np.random.choice(replace=False) returns distinct in-range indices; np.random.choice(p=fractions) never draws a population with fraction 0", "glob/re discovery of map files", "float repr of cM"],
